@@ -1,6 +1,10 @@
 (* C10 - TaskGroup join follows its wait policy and reports the first finisher.
-   Model: model/TaskGroup.v (see props/C09.v).  The theorems are over ALL label sequences in
-   which members are spawned running (TaskGroup.spawn).
+   Model: model/TaskGroup.v (see props/C09.v).  The theorems are over ALL label sequences -
+   members spawned running (TaskGroup.spawn) and tasks added when they had already finished (constructor,
+   add_task), in any number, with any outcomes, daemons or not, in any interleaving with the steps of the
+   joining task; only the statement about the ORDER of completion is restricted to members spawned running
+   (a task that was finished when added has no completion instant inside the trace: it enters _done at
+   the instant of the addition).
    Proved here: the members consumed by join, those queued in _done and those whose _on_done
    callback is still in the loop's ready queue are - in this order, without repetition - exactly
    the non-daemon members in the order in which they finished; `completed` is the first consumed
@@ -24,8 +28,17 @@ Theorem C10_completion_order_exactly_once : forall p m ls, forallb fresh_label l
              exists mem, get t (members g) = Some mem /\ m_daemon mem = false /\ is_fin mem = true).
 Proof. intros p m ls H. destruct (reachable_ord p m ls H) as [O1 O2 O3 _]. auto. Qed.
 
+(* exactly once, whatever the labels: the members consumed by join, queued in _done, and those whose
+   _on_done callback is still in the ready queue never repeat and are exactly the finished non-daemon members *)
+Theorem C10_exactly_once : forall p m ls,
+  let g := run p m ls in
+  NoDup (consumed g ++ doneq g ++ ondone_q (queue g)) /\
+  (forall t, In t (consumed g ++ doneq g ++ ondone_q (queue g)) <->
+             exists mem, get t (members g) = Some mem /\ m_daemon mem = false /\ is_fin mem = true).
+Proof. intros p m ls. destruct (reachable_once p m ls) as [O1 O2 _]. split; [exact O1|exact O2]. Qed.
+
 (* completed is the first member consumed by join that counts *)
-Theorem C10_completed_is_first : forall p m ls, forallb fresh_label ls = true ->
+Theorem C10_completed_is_first : forall p m ls,
   completed (run p m ls) = find (counts (run p m ls)) (consumed (run p m ls)).
 Proof. exact reachable_cf. Qed.
 
@@ -53,7 +66,7 @@ Proof. intros p m ls. apply (reachable_sem p m ls). Qed.
 
 (* the wait policy, the "waits" side: in the step of the joining task in which the loop is left
    without a cancellation, a reason holds *)
-Theorem C10_loop_left_only_by_policy : forall p m ls h order rest, forallb fresh_label ls = true ->
+Theorem C10_loop_left_only_by_policy : forall p m ls h order rest,
   let g := run p m ls in
   queue g = HJoiner :: rest -> must_cancel g = false -> wake g <> Some true ->
   (pc g = JNot \/ pc g = JCancelRem \/ pc g = JNextDone) ->
@@ -63,12 +76,12 @@ Proof. exact reachable_loop_left_by_policy. Qed.
 
 (* ... and the "stops early" side: no member but the last one consumed stops the loop, and while the
    loop is still going neither does the last one *)
-Theorem C10_never_past_a_stop : forall p m ls, forallb fresh_label ls = true ->
+Theorem C10_never_past_a_stop : forall p m ls,
   let g := run p m ls in
   (forall pre t post, consumed g = pre ++ t :: post -> post <> [] -> stop_at g pre t = false) /\
   (pc g = JNextDone -> forall pre t, consumed g = pre ++ [t] -> stop_at g pre t = false) /\
   ((pc g = JNot \/ pc g = JCancelRem) -> consumed g = []).
-Proof. intros p m ls H. destruct (reachable_post p m ls H) as (_ & _ & Hp). exact Hp. Qed.
+Proof. intros p m ls. destruct (reachable_post p m ls) as (_ & _ & Hp). exact Hp. Qed.
 
 (* non-vacuity: all policy - a value, then a failure: the loop goes on after the first, stops after the second *)
 Example C10_ex_all_stops_on_failure :
@@ -90,7 +103,16 @@ Example C10_ex_object :
   log_done g = [2; 1]%N.
 Proof. vm_compute. repeat split. Qed.
 
+(* non-vacuity: tasks handed over when already finished (one failed) - consumed once each, join stops at the failure *)
+Example C10_ex_already_finished :
+  let g := run PAll MJoin
+    [LSpawn 7 false (Some RetVal); LSpawn 8 true (Some RetVal); LSpawn 1 false None; LSpawn 9 false (Some Exc);
+     LStart; LRun HJoiner []; LRun HJoiner [1]]%N in
+  consumed g = [7; 9]%N /\ completed g = Some 7%N /\ status g 1%N = Some RunC /\ pc g = JCancelAll.
+Proof. vm_compute. repeat split. Qed.
+
 Print Assumptions C10_completion_order_exactly_once.
+Print Assumptions C10_exactly_once.
 Print Assumptions C10_completed_is_first.
 Print Assumptions C10_probe_join_decisions.
 Print Assumptions C10_semaphore_counts_done.
